@@ -157,7 +157,7 @@ pub fn run(c: &Case, rep: &mut Report, prop: &str, seed: u64) {
         rep.sample(json!({"spec": c.spec, "expected_removed": removed, "funcs_in": din.funcs.len(), "funcs_out": dout.funcs.len(), "roots": end.str("gc.roots")}));
     } else {
         // C07: precise: everything present in the output is reachable in the output
-        let rout = reach(&dout, &ExtraRoots::default());
+        let rout = wv_oracle::reach::reach_opts(&dout, &ExtraRoots::default(), true);
         // custom-section roots of the input are legitimately kept: find them through the isomorphism
         let r = iso::compare(&din, &dout, Some(&rin.keep));
         let mut allowed = ExtraRoots::default();
